@@ -68,7 +68,7 @@ func splitPathAndQuery(originalQuery url.Values, raw string) (string, string, er
 
 	queryValues, err := url.ParseQuery(s[1])
 	if err != nil {
-		return "", "", nil
+		return "", "", err
 	}
 
 	for key, values := range queryValues {
